@@ -1,7 +1,11 @@
 ------------------------------ MODULE LockOrder ------------------------------
 (* Lock ordering (property C14): the verif build records, per goroutine, which lock instances are held when another *)
-(* one is acquired.  The recorded edges (instance level and class level; class = receiver type of the code that      *)
-(* takes the lock) must not contain a cycle: a cycle is a lock-order inversion, i.e. a potential deadlock.           *)
+(* one is acquired, and which goroutines took each edge.  A cycle in the recorded order (instance level and class    *)
+(* level; class = receiver type of the code that takes the lock) is a lock-order inversion, i.e. a potential         *)
+(* deadlock - unless every edge on it was taken by one and the same goroutine, which cannot deadlock with itself     *)
+(* (the scheduling loop is one goroutine: an asking application's lock is held while a victim application is read,   *)
+(* in either direction in different cycles).  A goroutine that acquires a lock it already holds (self edge) is       *)
+(* always reported: recursive read locking deadlocks against a queued writer.                                        *)
 (* Edges between two instances of the same class (a queue and its parent) are judged at instance level only.         *)
 EXTENDS Integers, Sequences, FiniteSets, TLC, Json
 
@@ -11,16 +15,24 @@ VARIABLE done
 InstEdges == {<<Edges[i].from, Edges[i].to>> : i \in 1..Len(Edges)}
 ClassEdges == {<<Edges[i].fromClass, Edges[i].toClass>> : i \in {j \in 1..Len(Edges) : Edges[j].fromClass # Edges[j].toClass}}
 NodesOf(E) == {e[1] : e \in E} \cup {e[2] : e \in E}
-\* Kahn: repeatedly drop the vertices without incoming edge; what is left (if anything) lies on or behind a cycle
+ToSet(q) == {q[i] : i \in 1..Len(q)}
+GoroutinesOf(e) == UNION {ToSet(Edges[i].goroutines) : i \in {j \in 1..Len(Edges) : Edges[j].from = e[1] /\ Edges[j].to = e[2]}}
+SelfEdges == {e \in InstEdges : e[1] = e[2]}
+\* Kahn from both sides: repeatedly drop the edges that leave a vertex without incoming edge or enter a vertex without
+\* outgoing edge; what is left (if anything) are the edges on cycles and between cycles
 RECURSIVE Residue(_)
 Residue(E) == LET V == NodesOf(E)
-                  src == {v \in V : ~\E e \in E : e[2] = v} IN
-              IF src = {} \/ E = {} THEN E ELSE Residue({e \in E : e[1] \notin src})
+                  src == {v \in V : ~\E e \in E : e[2] = v}
+                  snk == {v \in V : ~\E e \in E : e[1] = v} IN
+              IF (src = {} /\ snk = {}) \/ E = {} THEN E ELSE Residue({e \in E : e[1] \notin src /\ e[2] \notin snk})
 Acyclic(E) == Residue(E) = {}
+\* all edges of the residue taken by one goroutine alone: no second party to deadlock with
+OneGoroutine(R) == \E g \in UNION {GoroutinesOf(e) : e \in R} : \A e \in R : GoroutinesOf(e) = {g}
+InstanceHazardFree == LET R == Residue(InstEdges \ SelfEdges) IN SelfEdges = {} /\ (R = {} \/ OneGoroutine(R))
 Init == done = FALSE
 Next == done = FALSE /\ done' = TRUE
 Spec == Init /\ [][Next]_done
-InstanceOrderAcyclic == Acyclic(InstEdges) \/ PrintT(<<"FAIL", "C14_LockOrderInstances", Residue(InstEdges)>>)
+InstanceOrderAcyclic == InstanceHazardFree \/ PrintT(<<"FAIL", "C14_LockOrderInstances", SelfEdges, Residue(InstEdges \ SelfEdges)>>)
 ClassOrderAcyclic == Acyclic(ClassEdges) \/ PrintT(<<"FAIL", "C14_LockOrderClasses", Residue(ClassEdges)>>)
 Report == PrintT(<<"LOCKS", Cardinality(InstEdges), Cardinality(ClassEdges), ClassEdges>>)
 Inv == InstanceOrderAcyclic /\ ClassOrderAcyclic /\ (done \/ Report)
